@@ -292,4 +292,4 @@ def render_file(f):
 
 
 def sx_file(f, text):
-    return [S("file"), [sx_attr(a) for a in f["attrs"]], [sx_item(it) for it in f["items"]], "#[typeshare" in text]
+    return [S("file"), [sx_attr(a) for a in f["attrs"]], [sx_item(it) for it in f["items"]], "typeshare" in text]
